@@ -6,9 +6,11 @@ pub mod c03;
 pub mod c07;
 pub mod c08;
 pub mod c09;
+pub mod c13;
+pub mod c20;
 pub mod lazy;
 
-pub const ALL: &[&str] = &["C02", "C03", "C06", "C07", "C08", "C09", "C10", "C11", "C12", "C14"];
+pub const ALL: &[&str] = &["C02", "C03", "C06", "C07", "C08", "C09", "C10", "C11", "C12", "C13", "C14", "C20"];
 
 pub fn families(prop: &str, tier: Tier, variant: &str) -> Vec<Family> {
     match prop {
@@ -20,6 +22,8 @@ pub fn families(prop: &str, tier: Tier, variant: &str) -> Vec<Family> {
         "C11" => lazy::families_c11(tier),
         "C12" => lazy::families_c12(tier),
         "C14" => lazy::families_c14(tier),
+        "C20" => c20::families(tier, variant),
+        "C13" => c13::families(tier, variant),
         "C09" => c09::families(tier, variant),
         "C06" => c03::families(tier, variant, c03::Mode::RoundTrip),
         _ => vec![],
